@@ -273,6 +273,11 @@ class _SessionRegistry:
                 return None
         return entry
 
+    def holds(self, session_id: bytes, entry: _SessionEntry) -> bool:
+        """Return whether *entry* is still the live registration for *session_id*."""
+        with self._lock:
+            return self._entries.get(session_id) is entry
+
     def close(self, session_id: bytes) -> bool:
         """Remove a session and invoke ``state.close()``. Returns ``True`` on hit."""
         with self._lock:
@@ -527,6 +532,19 @@ class _StickyMiddleware:
                     raise SessionLostError(
                         "session not found, expired, or principal mismatch",
                     )
+                # Acquire the per-session RLock for the duration of dispatch.
+                # Released in process_response. Same-session concurrent calls
+                # serialize here; different-session calls run in parallel.
+                entry.lock.acquire()
+                # The session may have been closed (DELETE, close_session() in
+                # another call, TTL eviction, shutdown) between the lookup above
+                # and the moment we got the lock — re-check under the lock so we
+                # never dispatch against a state whose close() has already run.
+                if not self._registry.holds(session_id, entry):
+                    entry.lock.release()
+                    raise SessionLostError(
+                        "session was closed while the request was waiting for it",
+                    )
             except SessionLostError as exc:
                 # Convert middleware-time SessionLostError into the same
                 # Arrow EXCEPTION-batch response shape that in-dispatch errors
@@ -536,10 +554,6 @@ class _StickyMiddleware:
                 _set_error_response(resp, exc, status_code=HTTPStatus.INTERNAL_SERVER_ERROR)
                 resp.complete = True
                 return
-            # Acquire the per-session RLock for the duration of dispatch.
-            # Released in process_response. Same-session concurrent calls
-            # serialize here; different-session calls run in parallel.
-            entry.lock.acquire()
             req.context.sticky_entry = entry
             req.context.sticky_entry_lock_acquired = True
             session_id_hex = session_id.hex()
